@@ -17,8 +17,9 @@
    read from the Modules value.  Go map iteration order (only resolveIdentities still ranges over a map; process()
    visits the modules in the order of their keys since c66538f) is the explicit oracle [ord].
 
-   [fixes] switches between the code as pinned and the code after the repairs proposed for the findings of C18; the
-   constant [now] says which of them the checked tree contains (the correspondence check runs the model with [now]). *)
+   [fixes] switches between the code as pinned and the code after the repairs made for the findings of C18 (D43,
+   D55, D56, D57, D62); the constant [now] says which of them the checked tree contains (the correspondence check
+   runs the model with [now]); the old variants are kept for the _refuted witnesses only. *)
 From Coq Require Import List NArith Bool Arith.
 Import ListNotations.
 From GY Require Import Model.Registry.
@@ -53,7 +54,7 @@ Definition pinned : fixes :=
 Definition repaired : fixes :=
   {| fx_atomic := true; fx_byns := true; fx_types := true; fx_idents := true; fx_binds := true |}.
 (* the tree under /repo as checked: 07ff912 (atomic Parse), 9f6d850 (byNS), 2ea7be8 (types), b3c50c0 (identities) and
-   the reset of Import.Module / Include.Module at the top of Process *)
+   45df602 (Import.Module / Include.Module cleared at the top of Process) *)
 Definition now : fixes := repaired.
 
 (* ------------------------------------------------------------------ small finite maps (association lists) *)
